@@ -16,7 +16,7 @@ use crate::oracle::page::total_len;
 use crate::oracle::vsign::*;
 use crate::repr::M;
 
-pub const RULE_C10: &str = "reply scripts over a 42-symbol alphabet (13 state reports x own/foreign address, 6 acknowledgements x own/foreign address - which includes wrong-operation acknowledgements -, no reply, goodbye, an unknown frame, bus error) enumerated exhaustively by systematic re-execution: the operation is re-run on a fresh scripted bus and the script is extended by every symbol whenever the controller asks for one more reply, to the natural end of configure, configure_if_needed, send_pages, show_loaded_page, load_next_page and shut_down (page-switch polling cut at depth 7 quick / 9 thorough), for several sign types and (own, foreign) address pairs; plus proptest random scripts (70 % 'continue' replies) for larger sign types and 1-2 page lists. At every node the emitted message sequence and - at leaves - the outcome class are compared with a reference controller simulation. Non-trivial = a script with at least one reply that is not the happy-path reply; distinct by hash of (operation, configuration, script)";
+pub const RULE_C10: &str = "reply scripts over a 42-symbol alphabet (13 state reports x own/foreign address, 6 acknowledgements x own/foreign address - which includes wrong-operation acknowledgements -, no reply, goodbye, an unknown frame, bus error) enumerated exhaustively by systematic re-execution: the operation is re-run on a fresh scripted bus and the script is extended by every symbol whenever the controller asks for one more reply, to the natural end of configure, configure_if_needed, send_pages, show_loaded_page, load_next_page and shut_down (page-switch polling cut at depth 7 quick / 9 thorough), for several sign types and (own, foreign) address pairs; plus proptest random scripts (70 % 'continue' replies) for larger sign types and 1-2 page lists, also as sequences of 2..5 operations on ONE Sign object (each operation's slice of the conversation judged on its own). At every node the emitted message sequence and - at leaves - the outcome class are compared with a reference controller simulation. Non-trivial = a script with at least one reply that is not the happy-path reply; distinct by hash of (operation, configuration, script)";
 pub const RULE_C11: &str = "the same conversations as C10 (exhaustive reply-script trees by systematic re-execution, random scripts, several addresses and sign types) judged without the reference conversation, by invariants on the transcript: I1 success only after this sign's 'received' report concluded the last transfer attempt, I2 fail-stop after a bus error or a reply the protocol does not allow at that point (with the matching error class), I3 at most three transfer attempts and retries only after this sign's 'failed' report, I4 every emitted addressed message carries the controller's address, I5 reports from another address are never taken as this sign's. Non-trivial = a script with at least one non-happy-path reply; distinct by hash";
 pub const ASSUMPTIONS_C10: &[&str] = &["the reference controller in oracle/controller.rs is a correct reading of the documented protocol (doc comments of configure, configure_if_needed, send_pages, load_next_page, show_loaded_page, shut_down and of the Message kinds)"];
 pub const ASSUMPTIONS_C11: &[&str] = &["the invariants are keyed on local context only (the previous exchange), so they do not depend on the reference conversation of C10"];
@@ -138,6 +138,12 @@ pub struct Run {
 }
 
 fn execute(c: &ConvCase, stop_when_exhausted: bool) -> Result<Run, String> {
+    Ok(execute_seq(c, &[c.op], stop_when_exhausted)?.remove(0))
+}
+
+/// Run several operations one after the other on the SAME `Sign` object and the same scripted bus;
+/// one `Run` per operation (its slice of the transcript).
+fn execute_seq(c: &ConvCase, ops: &[OpKind], stop_when_exhausted: bool) -> Result<Vec<Run>, String> {
     let (sign_type, _, _, w, h) = TYPES[c.sign_type as usize % 11];
     let bus = Rc::new(RefCell::new(ScriptBus {
         own: c.addr,
@@ -151,25 +157,33 @@ fn execute(c: &ConvCase, stop_when_exhausted: bool) -> Result<Run, String> {
     let sign = Sign::new(bus.clone(), Address(c.addr), sign_type);
     let page_bytes = make_pages(c);
     let pages: Vec<Page<'_>> = page_bytes.iter().map(|b| Page::from_bytes(w, h, &b[..]).expect("page of the sign's size")).collect();
-    let result: Result<Outcome, SignError> = catch(|| match c.op {
-        OpKind::Configure => sign.configure().map(|_| Outcome::Ok),
-        OpKind::ConfigureIfNeeded => sign.configure_if_needed().map(|_| Outcome::Ok),
-        OpKind::SendPages => sign.send_pages(&pages).map(|s| if s == PageFlipStyle::Automatic { Outcome::OkAutomatic } else { Outcome::OkManual }),
-        OpKind::ShowLoadedPage => sign.show_loaded_page().map(|_| Outcome::Ok),
-        OpKind::LoadNextPage => sign.load_next_page().map(|_| Outcome::Ok),
-        OpKind::ShutDown => sign.shut_down().map(|_| Outcome::Ok),
-    })
-    .map_err(|p| format!("the controller panicked: {p}"))?;
-    let b = bus.borrow();
-    let outcome = match result {
-        Ok(o) => o,
-        Err(SignError::Bus { .. }) => Outcome::ErrBus,
-        Err(SignError::UnexpectedResponse { .. }) => Outcome::ErrUnexpected,
-        Err(_) => Outcome::ErrUnexpected,
-    };
-    let exhausted = b.exhausted_at.is_some();
-    let calls_after = b.exhausted_at.map(|i| b.calls - i - 1).unwrap_or(0);
-    Ok(Run { transcript: b.transcript.clone(), exhausted, outcome: if exhausted { None } else { Some(outcome) }, calls_after_exhaustion: calls_after })
+    let mut runs = vec![];
+    for op in ops {
+        let start = bus.borrow().transcript.len();
+        let result: Result<Outcome, SignError> = catch(|| match op {
+            OpKind::Configure => sign.configure().map(|_| Outcome::Ok),
+            OpKind::ConfigureIfNeeded => sign.configure_if_needed().map(|_| Outcome::Ok),
+            OpKind::SendPages => sign.send_pages(&pages).map(|s| if s == PageFlipStyle::Automatic { Outcome::OkAutomatic } else { Outcome::OkManual }),
+            OpKind::ShowLoadedPage => sign.show_loaded_page().map(|_| Outcome::Ok),
+            OpKind::LoadNextPage => sign.load_next_page().map(|_| Outcome::Ok),
+            OpKind::ShutDown => sign.shut_down().map(|_| Outcome::Ok),
+        })
+        .map_err(|p| format!("the controller panicked in {op:?}: {p}"))?;
+        let b = bus.borrow();
+        let outcome = match result {
+            Ok(o) => o,
+            Err(SignError::Bus { .. }) => Outcome::ErrBus,
+            Err(SignError::UnexpectedResponse { .. }) => Outcome::ErrUnexpected,
+            Err(_) => Outcome::ErrUnexpected,
+        };
+        let exhausted = b.exhausted_at.is_some();
+        let calls_after = b.exhausted_at.map(|i| b.calls - i - 1).unwrap_or(0);
+        runs.push(Run { transcript: b.transcript[start..].to_vec(), exhausted, outcome: if exhausted { None } else { Some(outcome) }, calls_after_exhaustion: calls_after });
+        if exhausted {
+            break;
+        }
+    }
+    Ok(runs)
 }
 
 /// Evaluate one conversation under the chosen oracle.
@@ -260,6 +274,32 @@ pub fn check_conversation(c: &ConvCase, invariants_only: bool, st: &mut Stats) -
         st.sample(json!({"op": format!("{:?}", c.op), "addr": c.addr, "type": format!("{:?}", TYPES[c.sign_type as usize % 11].0),
             "conversation": run.transcript.iter().map(|(m, r)| format!("{} -> {}", m.short(), r.short())).collect::<Vec<_>>(), "outcome": format!("{:?}", run.outcome.unwrap())}));
     }
+    Ok(())
+}
+
+/// Several operations on one `Sign` object: each operation's slice of the conversation is judged on its own
+/// (a controller that carried state from one call into the next would diverge in a later slice).
+#[derive(Serialize, Deserialize, Debug, Clone, PartialEq, Eq, Hash)]
+pub struct SeqCase {
+    pub base: ConvCase,
+    pub then: Vec<OpKind>,
+}
+
+pub fn check_sequence(c: &SeqCase, invariants_only: bool, st: &mut Stats) -> Result<(), String> {
+    let mut ops = vec![c.base.op];
+    ops.extend(c.then.iter().copied());
+    let runs = execute_seq(&c.base, &ops, false)?;
+    let mut deviation = false;
+    for (i, (op, run)) in ops.iter().zip(runs.iter()).enumerate() {
+        st.eval();
+        let cc = ConvCase { op: *op, ..c.base.clone() };
+        judge(&cc, run, invariants_only).map_err(|e| format!("operation {i} ({op:?}) of a sequence on one Sign object: {e}"))?;
+        deviation |= has_deviation(c.base.addr, &run.transcript);
+    }
+    if deviation && ops.len() >= 2 {
+        st.nontrivial(h64(c));
+    }
+    st.class("sequence-on-one-sign-object");
     Ok(())
 }
 
@@ -424,9 +464,29 @@ fn conv_strategy() -> impl Strategy<Value = ConvCase> {
 pub fn run(ctx: &Ctx, invariants_only: bool) {
     run_tree(ctx, invariants_only);
     run_generated(ctx, "random-scripts", ctx.tier.pick(60_000, 2_000_000), conv_strategy, |c, st| check_conversation(c, invariants_only, st));
+    run_generated(
+        ctx,
+        "sequences",
+        ctx.tier.pick(40_000, 1_000_000),
+        || {
+            (
+                conv_strategy(),
+                proptest::collection::vec(
+                    proptest::sample::select(vec![OpKind::Configure, OpKind::ConfigureIfNeeded, OpKind::SendPages, OpKind::SendPages, OpKind::ShowLoadedPage, OpKind::LoadNextPage, OpKind::ShutDown]),
+                    1..=4,
+                ),
+            )
+                .prop_map(|(base, then)| SeqCase { base, then })
+        },
+        |c, st| check_sequence(c, invariants_only, st),
+    );
 }
 
 pub fn replay(part: &str, case: &Value, invariants_only: bool) -> Result<(), String> {
+    if part == "sequences" {
+        let c: SeqCase = serde_json::from_value(case.clone()).map_err(|e| format!("bad case: {e}"))?;
+        return check_sequence(&c, invariants_only, &mut Stats::new());
+    }
     let c: ConvCase = serde_json::from_value(case.clone()).map_err(|e| format!("bad case: {e}"))?;
     if part == "reply-script-tree" {
         // node of the systematic tree: exhaustion stops the conversation
